@@ -33,6 +33,12 @@ def per_doc_repeat(base, out):
     return True
 
 
+# binary operators whose handler clones its context read-only, those that use their caller's context, and the operators
+# that evaluate a condition / key / argument read-only (Proofs/OperandsRO.v: ro_binop, ro_arg_op)
+RO_BINOPS = ["add", "sub", "mul", "mod", "ne", "and", "or"]
+CALLER_BINOPS = ["eq", "lt", "le", "gt", "ge", "alt"]
+RO_ARGOPS = ["select", "has", "unique_by", "group_by", "sort_by", "any_c", "all_c", "contains"]
+
 MERGE_FLAGS = ["", "+", "d", "?", "n", "+d", "+?", "+n", "d?", "dn", "?n", "+d?", "+dn", "+?n", "d?n", "+d?n"]
 
 
@@ -51,15 +57,34 @@ def run(chk):
         g.set_doc(d)
         e = g.expr(chk.rng.choice([1, 2, 2, 3] if not thorough else [2, 3, 4]))
         form = chk.rng.random()
-        if form < 0.6:
+        if form < 0.5:
             cases.append((("as", e, "x", ("self",)), d, e))
-        else:
+        elif form < 0.8:
             cases.append((("union", ("collect", ("pipe", ("recurse",), ("select", e))), ("self",)), d, e))
+        else:
+            # the caller's context is writable: `(L op R), .` / `(op(E)), .` -- operands, keys and conditions that reach
+            # for missing keys and indices beyond the end must still leave the document alone
+            rng = chk.rng
+
+            def operand():
+                if rng.random() < 0.6:
+                    conts = [p for p in evalgen.doc_paths(d) if isinstance(evalgen._get(d, p), (dict, list, type(None)))] or [()]
+                    p = rng.choice(conts)
+                    x = evalgen.path_expr(p)
+                    for _ in range(rng.choice([1, 1, 2])):
+                        step = ("getkey", rng.choice(["zq", "zr"])) if rng.random() < 0.5 else ("index", ("self",), evalgen.lit(rng.choice([3, 5, 7])))
+                        x = step if x == ("self",) else ("pipe", x, step)
+                    return x
+                return g.expr(rng.choice([0, 1, 2]))
+            op = rng.choice(RO_BINOPS + RO_BINOPS + CALLER_BINOPS + RO_ARGOPS)
+            top = (op, operand(), operand()) if op in evalgen.BINOPS else (op, operand())
+            cases.append((("union", top, ("self",)), d, top))
     pairs = [(c[0], c[1]) for c in cases]
     impl, mm, unsup, err = evalcheck.correspondence(chk, pairs, "c08_cases")
     if err:
         broken.append("model evaluation failed: " + err[-600:])
     # direct oracle: the document printed afterwards equals the input document
+    nwritable = {"read_only_family": 0, "caller_mode": 0}
     for i, (w, d, e) in enumerate(cases):
         res = evalcheck.results_of(impl[i])
         if res is None:
@@ -69,8 +94,19 @@ def run(chk):
         ok = True
         if w[0] == "as":
             ok = all(r == want for r in res)
+        elif w[1][0] in CALLER_BINOPS:
+            # equalsOperator / compareOperator / alternativeOperator evaluate their operands with the caller's context:
+            # recorded findings, one per handler (the existing tests pin the result paths that come with it)
+            nwritable["caller_mode"] += 1
+            ok = len(res) >= 1 and res[-1] == want
+            key = "caller-mode-operands-" + {"eq": "equals", "alt": "alternative"}.get(w[1][0], "compare")
+            if not ok and chk.is_known(key):
+                chk.known_finding(key, evalgen.render(w))
+                ok = True
         else:
             ok = len(res) >= 1 and res[-1] == want
+            if w[1][0] != "collect":
+                nwritable["read_only_family"] += 1
         chk.count((evalgen.render(w), json.dumps(d)), nontrivial=len(evalgen.ops_of(e)) > 2,
                   sample={"expr": evalgen.render(w), "doc": d} if len(evalgen.render(w)) > 30 else None)
         if not ok:
@@ -79,6 +115,24 @@ def run(chk):
                           "evaluating an assignment-free expression changed the input document: " + evalgen.render(w))
             if len(chk.violations) >= 5:
                 break
+    wit = [("caller-mode-operands-equals", "(.b[3] == 1), ."), ("caller-mode-operands-compare", "(.b[3] < 1), ."), ("caller-mode-operands-compare", "(.b[3] >= 1), ."),
+           ("caller-mode-operands-alternative", "(.b[3] // 1), ."), (None, "(.b[3] != 1), ."), (None, "(.b[3] + 1), ."), (None, "(.c.d * {\"k\": 1}), ."),
+           (None, "(.b[3] - 1), ."), (None, "(.b[3] % 2), ."), (None, "(.b[3] and true), ."), (None, "(.b[3] or .c.d), ."), (None, "(.b | has(3)), ."),
+           (None, "select(.b[3] == null), ."), (None, "(.l | sort_by(.zq.zr)), ."), (None, "(.l | group_by(.[3])), ."), (None, "(.l | unique_by(.zq)), ."),
+           (None, "(.l | any_c(.zq == 1)), ."), (None, "(.l | all_c(.[2] == 1)), ."), (None, "([.b] | contains([.c.d])), .")]
+    wdoc = {"b": [1], "c": {}, "l": [{"k": 1}, [1]]}
+    wout = evalcheck.impl_eval([(e, wdoc) for _, e in wit])
+    for (key, e), b in zip(wit, wout):
+        res = evalcheck.results_of(b)
+        if res is None or not res:
+            continue
+        chk.count((e, json.dumps(wdoc)), nontrivial=True)
+        if res[-1] != evalcheck.ser(wdoc):
+            if key and chk.is_known(key):
+                chk.known_finding(key, e)
+            else:
+                chk.violation({"kind": "eval", "expr": e, "doc": wdoc, "impl": b.decode("utf-8", "replace"), "expect_doc": evalcheck.ser(wdoc).decode("utf-8", "replace")},
+                              True, "evaluating the operands of an operator changed the input document: " + e)
     # text-vocabulary sweep (operators outside the model): oracle only
     docs = [evalgen.gen_doc(chk.rng) for _ in range(60 if not thorough else 400)]
     docs += [{"a": [1, [2, [3]]], "b": None, "c": "x"}, {"a": None}, [1, 2], {"a": {"b": None}}, [[3, 1], [2]], {"a": "a,b", "b": "b"}, {"a": 1, "b": 2}]
@@ -150,6 +204,7 @@ def run(chk):
             chk.violation({"kind": "yaml", "expr": ex, "yaml": y, "impl": out.decode("utf-8", "replace"), "expect": base[y].decode("utf-8", "replace")}, True,
                           "evaluating an assignment-free expression changed how the document prints: " + ex)
     chk.extra["yaml_alias_cases"] = nyaml
+    chk.extra["writable_caller_cases"] = nwritable
     chk.extra["distribution"] = {"model_cases": len(cases), "impl_outcomes": evalcheck.outcome_stats(impl), "outside_model_fragment(UNSUP)": unsup,
                                  "text_vocabulary_cases": len(tcases), "text_outcomes": evalcheck.outcome_stats(timpl)}
     if mm and not chk.violations:
